@@ -340,3 +340,48 @@ def rule_v1(repo, res):
             if not ok:
                 res.add(Finding("V1", f"new.{name}", f"{kw}={cls}", f"pvl.new.{name} does not pass {kw}={cls}: containers of the "
                                 "old family are returned/assumed", where=f"pvl/new.py:{fb.lineno}"))
+
+
+def rule_f4(repo, res, modname="__init__"):
+    """F4: the text get_text_from returns is the file's text read with the caller's encoding and nothing else -- the
+    same text for a path, an open text stream and an open binary stream.  Outcome terms: every return is one of
+    `Path($path).read_text(encoding=$encoding)`, `decode_by_char(<the file opened 'rb'>)`, `decode_by_char($path)`,
+    `$path.read()`.  A default encoding, codec option or clean-up added on one route only (a byte-order-mark codec for
+    paths) makes the entry points, and the command-line tools that hand over open files, disagree."""
+    mod = repo.module(modname)
+    if "get_text_from" not in mod.functions:
+        raise AnalysisError(f"anchor vanished: pvl/{modname}.py:get_text_from")
+    fn = mod.functions["get_text_from"]
+    pvar = fn.args.args[0].arg
+    X = symx.SymX(repo, modname, lambda c: True, terms=True)
+    outs = X.run(fn)
+    texts = sorted({symx.show(o.value) for o in outs if o.kind == "return"})
+    res.floor(f"{modname}.get_text_from return terms", len(texts), 3)
+    q = modname + "."
+    for t in texts:
+        n = _parse(t)
+        ok = False
+        if isinstance(n, ast.Call):
+            f = ast.unparse(n.func)
+            if f in (f"Path(_P_{pvar}).read_text", f"pathlib.Path(_P_{pvar}).read_text"):
+                kw = _kwmap(n)
+                ok = not n.args and set(kw) <= {"encoding"} and (not kw or _is_param(kw["encoding"], "encoding")) and not _star(n) \
+                    and ("encoding" in kw or len(fn.args.args) < 2)
+            elif f == f"_P_{pvar}.read":
+                ok = not n.args and not n.keywords
+            elif f in (q + "decode_by_char", "decode_by_char") and len(n.args) == 1 and not n.keywords:
+                a = n.args[0]
+                if _is_param(a, pvar):
+                    ok = True
+                elif isinstance(a, ast.Call) and ast.unparse(a.func) == "_with_" and len(a.args) == 1 and isinstance(a.args[0], ast.Call) \
+                        and ast.unparse(a.args[0].func) == "open":
+                    o = a.args[0]
+                    mode = _kwmap(o).get("mode") or (o.args[1] if len(o.args) > 1 else None)
+                    ok = bool(o.args) and _is_param(o.args[0], pvar) and isinstance(mode, ast.Constant) and mode.value == "rb"
+        res.oblige("F4", f"{modname}.get_text_from returns `{t[:90]}`: the file's text, read with the caller's encoding only", ok=ok)
+        if not ok:
+            res.add(Finding("F4", f"{modname}.get_text_from", "text read with something other than the caller's encoding",
+                            f"{modname}.get_text_from can return `{t[:140]}`: this route reads the text differently from the others "
+                            "(an encoding default, codec or clean-up of its own), so the same label gives different text -- and a "
+                            "different module -- depending on whether a path, an open file or a stream is handed over",
+                            where=f"pvl/{modname}.py:{fn.lineno}"))
